@@ -14,6 +14,7 @@ PROPERTY_MODULES.update({
     "C12": "contracts.C12_config",
     "C13": "contracts.C13_gradients",
     "C14": "contracts.C14_toys",
+    "C16": "contracts.C16_workspace_ops",
     "C17": "contracts.C17_patchset",
     "C18": "contracts.C18_roundtrip",
     "C19": "contracts.C19_cli",
